@@ -124,6 +124,15 @@ Proof.
   destruct (m (new_iter bs)) as [[a i']|c|]; cbn; auto.
 Qed.
 
+(* what a successful run on a whole input satisfies *)
+Lemma osafe_run_post {A} (m : IM A) Q bs a : bytes_ok bs -> osafe m (Z.of_nat (length bs)) 0 Q ->
+  run_iter m bs = Ok a -> exists o', Q a o'.
+Proof.
+  intros Hb H E. unfold run_iter in E. specialize (H (new_iter bs) eq_refl eq_refl Hb).
+  destruct (m (new_iter bs)) as [[a' i']|c|]; cbn in E; try discriminate. inversion E; subst.
+  exists (ioff i'). tauto.
+Qed.
+
 (* ---------------- value facts ---------------- *)
 
 Lemma bitsf_nonneg bs off w : 0 <= bitsf bs off w.
